@@ -220,6 +220,12 @@ func (s *AttrSpec) decode(content *hcl.BodyContent, blockLabels []blockLabel, ct
 	val, diags := attr.Expr.Value(ctx)
 
 	convVal, err := convert.Convert(val, s.Type)
+	if err != nil && val.ContainsMarked() {
+		// The conversion error may quote map keys or attribute names of the
+		// value, which for a marked value may be content the calling
+		// application considers sensitive, so we only describe the wanted type.
+		err = fmt.Errorf("%s required", s.Type.FriendlyNameForConstraint())
+	}
 	if err != nil {
 		diags = append(diags, &hcl.Diagnostic{
 			Severity: hcl.DiagError,
